@@ -193,7 +193,8 @@ def finishCreate (c : Cfg) (s : State) (m : Mem Loc) (t i : Nat) : State :=
 /-- after `allocate()` returned `i`: `create_accessor` goes on with `_slots.ensure(i)`; a thread id
 (thread-local style) is complete — there `ensure` is part of every `lock()` -/
 def afterAlloc (c : Cfg) (s : State) (m : Mem Loc) (t i : Nat) : State :=
-  if c.tls then finishCreate c s m t i else { s with mem := m, pc := upd s.pc t (.en0 i .kCreate) }
+  if c.tls then finishCreate c s m t i
+  else { s with mem := m, pc := upd s.pc t (.en0 i .kCreate), av := upd s.av i (m.tv t).cur }
 
 /-- what happens when `ensure(i)` is done -/
 def afterEnsure (c : Cfg) (s : State) (m : Mem Loc) (t i : Nat) (k : K) : State :=
